@@ -610,9 +610,15 @@ package rewriter
 //@ extern (*astutil.Cursor).Node(c) (n)
 //@   ensures n == cursorNode(c) && existing(n)
 //@ extern (*astutil.Cursor).Replace(c, n)
-//@   ensures true
+//@   ensures W == cursorReplace(c, n, old(W))      -- an edit of the tree under traversal, observable through the ghost world
+//@   modifies W
 //@ extern (*astutil.Cursor).InsertBefore(c, n)
+//@   ensures W == cursorInsert(c, n, old(W))
+//@   modifies W
+//@ extern log.Println(a)
 //@   ensures true
+//@ extern (*loader.Pkg).ObjectOf(pkg, id) (o)
+//@   ensures o == objectOf(id)
 
 //@ pred WfBranch(n *ast.BranchStmt) := n != nil && (n.Tok == token.BREAK || n.Tok == token.CONTINUE || n.Tok == token.GOTO || n.Tok == token.FALLTHROUGH)
 
@@ -732,3 +738,26 @@ package rewriter
 //@   ensures[local:body-in-thunk] IsDelayOf(as(as(r.funcBody.List[0], ReturnStmt).Results[0], CallExpr).Args[0], following.block)
 //@   ensures[local:thunk-closed] EndsOK(following)
 //@   modifies r.funcBody.List, AST
+
+
+// ---------------------------------------------------------------- pass 0: returns and := initialisers, only inside generator functions (C01, C13)
+
+//@ closure yieldRewriter.rewriteReturnAndForSwitchInitStmtInYieldFun#0 (ret) (isNil)
+//@   trusted      -- go/types lookups: is the returned expression absent or the untyped nil
+//@   ensures len(ret.Results) == 0 ==> isNil
+
+//@ closure yieldRewriter.rewriteReturnAndForSwitchInitStmtInYieldFun#2 (c) (ok)
+//@   reveal wf-ast
+//@   captured-inv r != nil && yieldFunStack != nil
+//@   requires c != nil && YRCtx(r) && SLen(yieldFunStack) > 0
+//@   requires isa(cursorNode(c), FuncDecl) || isa(cursorNode(c), FuncLit) ==> SLen(yieldFunStack) > 1
+//@   requires isa(cursorNode(c), ReturnStmt) ==> !isnil(cursorNode(c)) && len(as(cursorNode(c), ReturnStmt).Results) <= 1
+//@   requires isa(cursorNode(c), ForStmt) || isa(cursorNode(c), SwitchStmt) || isa(cursorNode(c), TypeSwitchStmt) ==> !isnil(cursorNode(c))
+//@   ensures[descend] ok
+//@   -- a node outside generator functions (a nested plain closure) is left exactly as it is
+//@   ensures[bystander] !old(STop(yieldFunStack)) && !isa(cursorNode(c), FuncDecl) && !isa(cursorNode(c), FuncLit) ==> W == old(W)
+//@        && fieldmap(ast.ForStmt.Init) == old(fieldmap(ast.ForStmt.Init)) && fieldmap(ast.SwitchStmt.Init) == old(fieldmap(ast.SwitchStmt.Init))
+//@        && fieldmap(ast.TypeSwitchStmt.Init) == old(fieldmap(ast.TypeSwitchStmt.Init))
+//@   ensures[balanced] isa(cursorNode(c), FuncDecl) || isa(cursorNode(c), FuncLit) ==> SLen(yieldFunStack) == old(SLen(yieldFunStack)) - 1
+//@   ensures[depth] !(isa(cursorNode(c), FuncDecl) || isa(cursorNode(c), FuncLit)) ==> SLen(yieldFunStack) == old(SLen(yieldFunStack)) && STop(yieldFunStack) == old(STop(yieldFunStack))
+//@   modifies cell(yieldFunStack), W, AST
